@@ -26,4 +26,120 @@ def toByteChars (s : Str) : Str := (utf8Bytes s).map Char.ofNat
 
 def globMatchU (litSep : Bool) (pat s : Str) : Bool := globMatch litSep (toByteChars pat) (toByteChars s)
 
+/-! ### the full single-level syntax: character classes and alternatives (globset 0.4 `Parser`,
+    `tokens_to_regex`).  `**` stays unmodelled (`parseGlob` answers `none`, as it does for the
+    patterns globset rejects: unclosed class, inverted range, nested or unclosed alternates,
+    dangling escape). -/
+
+inductive STok
+  | lit (c : Char)
+  | star
+  | any
+  | cls (neg : Bool) (ranges : List (Char × Char))
+  deriving DecidableEq, Repr
+
+/-- a class matches one character inside (outside, when negated) its ranges — also a `/`, whatever
+    `literal_separator` says (`tokens_to_regex` emits a plain regex class) -/
+def inRanges (ranges : List (Char × Char)) (c : Char) : Bool := ranges.any (fun r => r.1 ≤ c && c ≤ r.2)
+
+def matchS (litSep : Bool) : List STok → Str → Bool
+  | [], [] => true
+  | [], _ :: _ => false
+  | .star :: ps, [] => matchS litSep ps []
+  | .star :: ps, c :: cs =>
+      matchS litSep ps (c :: cs) || ((!litSep || c != '/') && matchS litSep (.star :: ps) cs)
+  | .any :: ps, c :: cs => (!litSep || c != '/') && matchS litSep ps cs
+  | .cls neg ranges :: ps, c :: cs => (inRanges ranges c != neg) && matchS litSep ps cs
+  | .lit p :: ps, c :: cs => p == c && matchS litSep ps cs
+  | .any :: _, [] => false
+  | .cls _ _ :: _, [] => false
+  | .lit _ :: _, [] => false
+termination_by p s => p.length + s.length
+
+inductive GTok
+  | s (t : STok)
+  | alt (alts : List (List STok))
+  deriving Repr
+
+/-- every way of choosing one alternative per group (an empty group contributes nothing) -/
+def expandAlts : List GTok → List (List STok)
+  | [] => [[]]
+  | .s t :: rest => (expandAlts rest).map (t :: ·)
+  | .alt alts :: rest =>
+    let alts' := alts.filter (fun a => !a.isEmpty)
+    if alts'.isEmpty then expandAlts rest else alts'.flatMap (fun a => (expandAlts rest).map (a ++ ·))
+
+def matchG (litSep : Bool) (toks : List GTok) (s : Str) : Bool := (expandAlts toks).any (fun p => matchS litSep p s)
+
+/-- `parse_class` after the `[` (and an optional `!`/`^`): ranges so far, whether a `-` is pending,
+    whether this is the first character -/
+def parseClass : Str → List (Char × Char) → Bool → Bool → Option (List (Char × Char) × Str)
+  | [], _, _, _ => none                                  -- unclosed class
+  | ']' :: rest, rs, inRange, first =>
+    if first then parseClass rest (rs ++ [(']', ']')]) inRange false
+    else some (if inRange then rs ++ [('-', '-')] else rs, rest)
+  | '-' :: rest, rs, inRange, first =>
+    if first then parseClass rest (rs ++ [('-', '-')]) inRange false
+    else if inRange then
+      match rs.getLast? with
+      | some r => if '-' < r.1 then none else parseClass rest (rs.dropLast ++ [(r.1, '-')]) false false
+      | none => none
+    else parseClass rest rs true false
+  | c :: rest, rs, inRange, _ =>
+    if inRange then
+      match rs.getLast? with
+      | some r => if c < r.1 then none else parseClass rest (rs.dropLast ++ [(r.1, c)]) false false
+      | none => none
+    else parseClass rest (rs ++ [(c, c)]) false false
+
+structure PState where
+  done : List GTok := []                  -- tokens outside alternates, in order
+  cur : Option (List (List STok)) := none -- inside `{`: alternatives so far, the last one still open
+
+def PState.push (st : PState) (t : STok) : PState :=
+  match st.cur with
+  | none => { st with done := st.done ++ [.s t] }
+  | some alts =>
+    match alts.getLast? with
+    | some a => { st with cur := some (alts.dropLast ++ [a ++ [t]]) }
+    | none => { st with cur := some [[t]] }
+
+/-- globset's `Parser::parse` for one token stream -/
+def parseGlobAux : Nat → Str → PState → Option (List GTok)
+  | 0, _, _ => none
+  | _ + 1, [], st => if st.cur.isSome then none else some st.done      -- unclosed alternates
+  | fuel + 1, c :: rest, st =>
+    if c = '?' then parseGlobAux fuel rest (st.push .any)
+    else if c = '*' then
+      (if rest.head? = some '*' then none else parseGlobAux fuel rest (st.push .star))   -- `**` is not modelled
+    else if c = '[' then
+      let (neg, rest') := match rest with
+        | '!' :: r => (true, r)
+        | '^' :: r => (true, r)
+        | r => (false, r)
+      match parseClass rest' [] false true with
+      | none => none
+      | some (rs, rest'') => parseGlobAux fuel rest'' (st.push (.cls neg rs))
+    else if c = '{' then
+      (if st.cur.isSome then none else parseGlobAux fuel rest { st with cur := some [[]] })   -- nested alternates
+    else if c = '}' then
+      match st.cur with
+      | none => parseGlobAux fuel rest st          -- `pop_alternate` with nothing open: an empty group, matches nothing extra
+      | some alts => parseGlobAux fuel rest { done := st.done ++ [.alt alts], cur := none }
+    else if c = ',' then
+      match st.cur with
+      | none => parseGlobAux fuel rest (st.push (.lit ','))
+      | some alts => parseGlobAux fuel rest { st with cur := some (alts ++ [[]]) }
+    else if c = '\\' then
+      match rest with
+      | [] => none                                                    -- dangling escape
+      | x :: rest' => parseGlobAux fuel rest' (st.push (.lit x))
+    else parseGlobAux fuel rest (st.push (.lit c))
+
+def parseGlob (pat : Str) : Option (List GTok) := parseGlobAux (pat.length + 1) pat {}
+
+/-- the verdict of a glob on a string; `none` when globset rejects the pattern (or it uses `**`) -/
+def globMatchX (litSep : Bool) (pat s : Str) : Option Bool :=
+  (parseGlob (toByteChars pat)).map (fun t => matchG litSep t (toByteChars s))
+
 end Rocfl
